@@ -198,6 +198,12 @@ def run(ctx):
             ctx.notes.append('stopped by budget')
             break
         check_source(ctx, ident, src, quick_sets, 'generated')
+    # a removable statement as the only statement of each kind of suite, with every removal switched on: what is left must
+    # still be a suite (always run, in both tiers)
+    for ident, src in c05.template_programs():
+        parts = ident.split('/')
+        if len(parts) == 3 and parts[2] == 'alone' and int(parts[1]) < 14:
+            check_source(ctx, 'sole:' + ident, src, [osets[2]], 'sole-statement')
     # the rest of the exhaustive slot x class expression programs: defaults and everything-off only
     for ident, src in getattr(ctx, '_c08_rest', []):
         if ctx.time_left() < 30:
